@@ -52,11 +52,14 @@ StampDone(s2) ==
 \* longer ago than that is still undelivered.  Together with the strict-timer rule (no timer while a step of the
 \* emulator - including waking a released poll - is enabled) this makes "the released poll was never answered"
 \* unexplainable instead of "answered just before the client was killed".
-\* (Extensions API only: its answers are a few hundred bytes; an event of several MiB on its way to a slow runtime
-\*  client can legitimately still be in flight when the function timeout expires)
+\* (Not for a large event on its way to the runtime: several MiB to a slow client can legitimately still be in
+\*  flight when the function timeout expires.)
+LargeDelivery(c) ==
+    /\ st.calls[c].who = "rt" /\ st.calls[c].res.kind = "INVOKE"
+    /\ st.calls[c].res.inv \in DOMAIN st.iv /\ st.iv[st.calls[c].res.inv].lg
 NoStaleAnswer ==
     \A c \in DOMAIN st.calls :
-        (st.calls[c].st = "done" /\ ~st.calls[c].det /\ st.calls[c].who # "rt") => NextT - st.calls[c].tdone <= AnswerSlack
+        (st.calls[c].st = "done" /\ ~st.calls[c].det /\ ~LargeDelivery(c)) => NextT - st.calls[c].tdone <= AnswerSlack
 
 ----------------------------------------------------------------------------
 (* observable actions *)
@@ -131,7 +134,7 @@ TInvokeCall ==
     /\ T.caller \in Callers
     /\ CallerStartEn(st, T.caller)
     /\ T.k = st.ninv + 1
-    /\ st' = [CallerStartDo(st, T.caller, T.pl, T.big) EXCEPT !.iv[T.k].t0 = T.t]
+    /\ st' = [CallerStartDo(st, T.caller, T.pl, T.big) EXCEPT !.iv[T.k].t0 = T.t, !.iv[T.k].lg = T.large]
     /\ UNCHANGED tp /\ Adv
 
 TInvokeRet ==
